@@ -180,3 +180,65 @@ for _has in (False, True):
              canaries=[('declared rows masked out before np.where (positions in the shortened array are recorded)', ('arr[row_inds] = 0.', 'arr = arr[row_inds == row_inds] if False else arr'), 'post')] if False else
                       [('audit compares without the absolute value', ('nzs = np.where(np.abs(arr) > uncovered_threshold)[0]', 'nzs = np.where(arr > uncovered_threshold)[0]'), 'post'),
                        ('pairs recorded with a shifted column', ('list(zip(nzs, icol * np.ones_like(nzs)))', 'list(zip(nzs, (icol + 1) * np.ones_like(nzs)))'), 'post')])
+
+
+# ---- DiagonalSubjac.set_col: the declared pattern of column icol is the single row icol -----------------------
+def native_diag(vals, np, om):
+    from pyvc.native_helpers import A, Fl
+    from openmdao.jacobians.subjac import DiagonalSubjac
+    obj = DiagonalSubjac.__new__(DiagonalSubjac)
+    vi = vals['self']['info']
+    info = {'val': A(vi['val'])}
+    if 'uncovered_nz' in vi:
+        info['uncovered_nz'] = [(97, 98)]
+        info['uncovered_threshold'] = Fl(vi['uncovered_threshold'])
+    obj.info = info
+    n0 = len(info.get('uncovered_nz', []))
+
+    def ghost(name):
+        new = obj.info.get('uncovered_nz', [])[n0:]
+        return new if new else None
+
+    def in_pairs(ps, a, b):
+        return ps is not None and any(int(x) == a and int(y) == b for x, y in ps)
+    thr = vals['uncovered_threshold']
+    column = A(vals['column'])
+    return (dict(self=obj, icol=int(vals['icol']), column=column, uncovered_threshold=None if thr is None else Fl(thr)),
+            dict(nr=len(column), n=len(info['val']), ghost=ghost, in_pairs=in_pairs))
+
+
+def sample_diag(has):
+    def samp(rng):
+        nr = rng.choice([1, 2, 3, 4, 5])
+        fr = lambda k: {'__frac__': [k, 8]}
+        info = [['val', {'__arr__': [fr(rng.choice([-8, 0, 3, 5])) for _ in range(nr)], 'shape': [nr], 'dtype': 'real'}]]
+        if has:
+            info += [['uncovered_nz', {'__obj__': 'list', 'id': 1, 'attrs': {}}], ['uncovered_threshold', fr(1)]]
+        return {'self': {'__obj__': 'DiagonalSubjac', 'id': 0, 'attrs': {'info': {'__dict__': info}}}, 'icol': rng.randrange(nr),
+                'column': {'__arr__': [fr(rng.choice([-16, -1, 0, 0, 1, 2, 8, 24])) for _ in range(nr)], 'shape': [nr], 'dtype': 'real'},
+                'uncovered_threshold': rng.choice([None, fr(0), fr(1), fr(12)])}
+    return samp
+
+
+for _has in (False, True):
+    info = {'val': Arr('n')}
+    if _has:
+        info['uncovered_nz'] = Obj('list')
+        info['uncovered_threshold'] = Real()
+    contract(SJ + '::DiagonalSubjac.set_col', ['C13'],
+             dict(self=Obj('DiagonalSubjac', info=DictT(info)), icol=Int(0, None), column=Arr('nr'), uncovered_threshold=OneOf(None, Real())),
+             requires=['icol < nr and icol < n', 'implies(uncovered_threshold is not None, uncovered_threshold >= 0)'],
+             ensures=["self.info['val'][icol] == old(column[icol])",
+                      "all(implies(i != icol, self.info['val'][i] == old(self.info['val'][i])) for i in range(n))",
+                      # the column handed in is restored after the audit
+                      'all(column[r] == old(column[r]) for r in range(nr))',
+                      "implies(uncovered_threshold is not None, all(implies(in_pairs(ghost('appended'), r, icol), r != icol and abs(column[r]) > uncovered_threshold) for r in range(nr)))",
+                      "implies(uncovered_threshold is not None, all(implies(r != icol and abs(column[r]) > uncovered_threshold, in_pairs(ghost('appended'), r, icol)) for r in range(nr)))",
+                      "implies(uncovered_threshold is None, ghost('appended') is None)",
+                      "implies(ghost('appended') is not None, 'uncovered_nz' in self.info and 'uncovered_threshold' in self.info)"]
+             + ([] if _has else ["implies(ghost('appended') is not None, self.info['uncovered_threshold'] == uncovered_threshold)"]),
+             modifies=["self.info['val']", 'self.info', 'column'], ghost_init={'appended': None}, native=native_diag, sampler=sample_diag(_has),
+             assumed={"self.info['uncovered_nz'].extend": Assumed(ghost=_ext_ghost, note='list.extend on the audit list (the appended sequence is recorded as ghost state)')},
+             name=SJ + '::DiagonalSubjac.set_col[%s]' % ('audit list exists' if _has else 'first offending column'),
+             canaries=[('diagonal entry not excluded from the audit', ('column[icol] = 0.  # zero out', 'pass  # zero out'), 'post'),
+                       ('column left zeroed after the audit', ('            column[icol] = save', '            pass'), 'post')] if not _has else [])
